@@ -225,6 +225,7 @@ fn main() {
         "derive" => derive_gen::run(),
         "teardown" => probes2::teardown(),
         "policy" => probes::policy(),
+        "lists" => probes::lists(),
         other => {
             eprintln!("unknown mode {}", other);
             std::process::exit(2);
